@@ -5,6 +5,8 @@ package c20
 import (
 	"bytes"
 	"fmt"
+	"os"
+	"strconv"
 	"strings"
 	"time"
 
@@ -33,12 +35,14 @@ var optCode = []int64{conflicttypes.Provider0, conflicttypes.Provider1, conflict
 
 type config struct {
 	name       string
-	stakes     [3]int64 // multiples of unit
-	votePeriod uint64   // 0: default of the module (2)
-	offset     int      // blocks after an epoch start at which the detection is sent
+	stakes     []int64 // multiples of unit, one per voter (2..4 voters)
+	votePeriod uint64  // 0: default of the module (2)
+	offset     int     // blocks after an epoch start at which the detection is sent
 }
 
 const unit = int64(100000)
+
+const maxVoters = 4
 
 type voter struct {
 	committed bool
@@ -49,7 +53,7 @@ type voter struct {
 type model struct {
 	phase    int
 	deadline uint64
-	v        [3]voter
+	v        [maxVoters]voter
 	closedAt uint64
 	outcome  string
 }
@@ -67,8 +71,9 @@ type scen struct {
 	ops    []opdef
 	names  []string
 	voteID string
-	voters [3]sigs.Account
-	stake  [3]sdk.Int
+	n      int
+	voters []sigs.Account
+	stake  []sdk.Int
 	accuse [2]sigs.Account
 	hashes [3][]byte // reply data hash revealed for option P0 / P1 / None
 	eb     uint64
@@ -81,7 +86,10 @@ type scen struct {
 func nonceOf(v int) int64 { return int64(7000 + v) }
 
 func build(cfg config) *scen {
-	s := &scen{cfg: cfg}
+	s := &scen{cfg: cfg, n: len(cfg.stakes)}
+	if s.n < 2 || s.n > maxVoters {
+		panic("config: voters")
+	}
 	w := chain.NewWorld()
 	s.w = w
 	w.StdFixture(chain.StdOpts{Specs: []string{"mock"}, Providers: 0, Consumers: 1, EpochsToSave: 16})
@@ -96,7 +104,10 @@ func build(cfg config) *scen {
 	s.vp = w.Keepers.Conflict.VotePeriod(w.Ctx)
 	s.eb = 4
 	cons, _ := w.GetAccount(common.CONSUMER, 0)
-	amounts := []int64{unit, unit, cfg.stakes[0] * unit, cfg.stakes[1] * unit, cfg.stakes[2] * unit}
+	amounts := []int64{unit, unit}
+	for _, m := range cfg.stakes {
+		amounts = append(amounts, m*unit)
+	}
 	var provs []sigs.Account
 	for i, a := range amounts {
 		acc, _ := w.AddAccount(common.PROVIDER, i, 100*unit)
@@ -104,7 +115,8 @@ func build(cfg config) *scen {
 		provs = append(provs, acc)
 	}
 	s.accuse = [2]sigs.Account{provs[0], provs[1]}
-	copy(s.voters[:], provs[2:])
+	s.voters = provs[2:]
+	s.stake = make([]sdk.Int, s.n)
 	if p := w.AdvanceToNextEpoch(chain.BlockDt); p != "" {
 		panic("fixture: " + p)
 	}
@@ -137,8 +149,8 @@ func build(cfg config) *scen {
 	}
 	cv := votes[0]
 	s.voteID = cv.Index
-	if len(cv.Votes) != 3 {
-		panic(fmt.Sprintf("fixture: %d voters listed, want 3", len(cv.Votes)))
+	if len(cv.Votes) != s.n {
+		panic(fmt.Sprintf("fixture: %d voters listed, want %d", len(cv.Votes), s.n))
 	}
 	for i, v := range s.voters {
 		ok := false
@@ -182,19 +194,19 @@ func build(cfg config) *scen {
 	s.init = model{phase: phCommit, deadline: cv.VoteDeadline}
 	w.MarkFixture()
 
-	for v := 0; v < 3; v++ {
+	for v := 0; v < s.n; v++ {
 		for o := 0; o < 3; o++ {
 			s.ops = append(s.ops, opdef{name: fmt.Sprintf("commit(v%d,%s)", v, optName[o]), kind: 0, voter: v, opt: o})
 		}
 	}
 	s.ops = append(s.ops, opdef{name: "commit(accusedProvider0,P0)", kind: 1, opt: 0})
-	for v := 0; v < 3; v++ {
+	for v := 0; v < s.n; v++ {
 		s.ops = append(s.ops, opdef{name: fmt.Sprintf("reveal(v%d)", v), kind: 2, voter: v})
 	}
-	for v := 0; v < 3; v++ {
+	for v := 0; v < s.n; v++ {
 		s.ops = append(s.ops, opdef{name: fmt.Sprintf("revealWrongNonce(v%d)", v), kind: 3, voter: v})
 	}
-	for v := 0; v < 3; v++ {
+	for v := 0; v < s.n; v++ {
 		s.ops = append(s.ops, opdef{name: fmt.Sprintf("revealOtherHash(v%d)", v), kind: 4, voter: v})
 	}
 	s.ops = append(s.ops, opdef{name: "+1block", kind: 5}, opdef{name: "next-epoch", kind: 6})
@@ -242,10 +254,10 @@ func (s *scen) compare(where string) []ev.Violation {
 	if cv.VoteDeadline != s.m.deadline {
 		out = append(out, v("deadline-changed:"+where, "vote deadline %d, expected %d at height %d", cv.VoteDeadline, s.m.deadline, w.Ctx.BlockHeight()))
 	}
-	if len(cv.Votes) != 3 {
+	if len(cv.Votes) != s.n {
 		out = append(out, v("voter-list-changed:"+where, "%d listed voters", len(cv.Votes)))
 	}
-	for i, mv := range s.m.v {
+	for i, mv := range s.m.v[:s.n] {
 		want := int64(conflicttypes.NoVote)
 		if mv.committed {
 			want = conflicttypes.Commit
@@ -352,7 +364,7 @@ func (s *scen) block() ([]ev.Violation, string) {
 	tally := [3]sdk.Int{sdk.ZeroInt(), sdk.ZeroInt(), sdk.ZeroInt()}
 	all, rev := sdk.ZeroInt(), sdk.ZeroInt()
 	nonVoters := 0
-	for i, mv := range s.m.v {
+	for i, mv := range s.m.v[:s.n] {
 		all = all.Add(s.stake[i])
 		if mv.revealed {
 			rev = rev.Add(s.stake[i])
@@ -399,7 +411,7 @@ func (s *scen) Apply(op int) bfs.Step {
 			}
 		}
 		h := uint64(w.Ctx.BlockHeight())
-		if (s.m.phase == phClosed && h >= s.m.closedAt+s.eb) || h > s.detect+(2*s.vp+4)*s.eb {
+		if (s.m.phase == phClosed && h > s.m.closedAt) || h > s.detect+(2*s.vp+4)*s.eb {
 			return bfs.Step{Accepted: true, Prune: true, Obs: "horizon"}
 		}
 		return bfs.Step{Accepted: true, Obs: label}
@@ -511,11 +523,12 @@ func firstLine(s string) string {
 }
 
 var configs = []config{
-	{name: "s113-vp2", stakes: [3]int64{1, 1, 3}},
-	{name: "s113-vp1-mid", stakes: [3]int64{1, 1, 3}, votePeriod: 1, offset: 2},
-	{name: "s112-vp1", stakes: [3]int64{1, 1, 2}, votePeriod: 1},
-	{name: "s111-vp1-mid", stakes: [3]int64{1, 1, 1}, votePeriod: 1, offset: 3},
-	{name: "s223-vp2-mid", stakes: [3]int64{2, 2, 3}, offset: 1},
+	{name: "s113-vp2", stakes: []int64{1, 1, 3}},
+	{name: "s112-vp1", stakes: []int64{1, 1, 2}, votePeriod: 1},
+	{name: "s113-vp1-mid", stakes: []int64{1, 1, 3}, votePeriod: 1, offset: 2},
+	{name: "s111-vp1-mid", stakes: []int64{1, 1, 1}, votePeriod: 1, offset: 3},
+	{name: "s223-vp2-mid", stakes: []int64{2, 2, 3}, offset: 1},
+	{name: "s1124-vp1", stakes: []int64{1, 1, 2, 4}, votePeriod: 1},
 }
 
 func init() {
@@ -525,24 +538,34 @@ func init() {
 	}
 	reg.Register(reg.Check{Property: "C20", Level: "model_checking", Run: func(run *ev.Run) {
 		names := []string{"s113-vp2", "s112-vp1"}
-		deadline := 45 * time.Second
+		deadline := 80 * time.Second
 		if ev.Tier() == "thorough" {
 			names = nil
 			for _, c := range configs {
 				names = append(names, c.name)
 			}
-			deadline = 4 * time.Minute
+			deadline = 14 * time.Minute
+		}
+		if d := os.Getenv("VERIF_C20_DEADLINE_S"); d != "" {
+			if n, err := strconv.Atoi(d); err == nil {
+				deadline = time.Duration(n) * time.Second
+			}
 		}
 		exh := true
+		begin := time.Now()
 		for _, n := range names {
-			cfg := bfs.Config{Scenario: "c20/" + n, MaxDepth: 64, Deadline: deadline}
+			left := deadline - time.Since(begin) // one budget shared by the scenarios
+			if left < time.Second {
+				left = time.Second
+			}
+			cfg := bfs.Config{Scenario: "c20/" + n, MaxDepth: 64, Deadline: left}
 			st := bfs.Explore(cfg, run)
 			bfs.Report(run, n, cfg, st)
 			exh = exh && st.Exhaustive && st.FrontierLeft == 0
 		}
 		run.Set("exhaustive", exh)
 		run.Set("scenarios", names)
-		run.Set("bound", "complete reachable state graph (BFS to fixpoint, depth cap 64) of one response-conflict vote with 3 listed voters from its detection until one epoch after it closes; 21 ops: commit(v,P0|P1|None) x3 voters, commit by an accused non-voter, reveal(v) with the committed data / wrong nonce / another option's hash x3 voters, +1 block, next epoch; scenarios = voter stakes x vote period x detection offset in the epoch")
+		run.Set("bound", "complete reachable state graph (BFS to fixpoint, depth cap 64) of one response-conflict vote with 3 (one thorough scenario: 4) listed voters from its detection until one block after it closes; 21 ops (27 with 4 voters): commit(v,P0|P1|None) per voter, commit by an accused non-voter, reveal(v) with the committed data / wrong nonce / another option's hash per voter, +1 block, next epoch; scenarios = voter stakes x vote period x detection offset in the epoch")
 		run.Assume("keepers wired by testutil/keeper.InitAllKeepers with the mock bank; transactions atomic as in baseapp (driver); EpochBlocks=4, EpochsToSave=16 so that the stake entries of the vote's epoch outlive the vote; voters' stakes are static during the vote")
 	}})
 }
